@@ -257,8 +257,11 @@ def operands (isa : Isa) (m : Mn) (w : BitVec 32) : List Operand :=
   -- riscv_ri_shifts : `imm(5)` (RV64I: 6 bits), `cst(imm, XLEN)`
   | .SLLI | .SRLI | .SRAI => [.reg rd, .reg rs1, cstOf (fld w 20 isa.shBits).1 n]
   | .SLLIW | .SRLIW | .SRAIW => [.reg rd, .reg rs1, cstOf (fld w 20 5).1 n]
-  -- riscv_ri_arithmetic2 : `cst(imm << 12, 32)`, sign-extended to XLEN
-  | .LUI | .AUIPC => [.reg rd, cstOf (Bits.sint ((fld w 12 20).1 * 2 ^ 12, 32)) n]
+  -- riscv_ri_arithmetic2 : RV32I `imm(20)`, `cst(imm << 12, 32)`; RV64I `~imm(20)`, `cst(imm.int(-1) << 12, 64)`
+  | .LUI | .AUIPC =>
+    match isa with
+    | .rv32 => [.reg rd, cstOf (((fld w 12 20).1 * 2 ^ 12 : Nat) : Int) 32]
+    | .rv64 => [.reg rd, cstOf ((fld w 12 20).sint * 2 ^ 12) 64]
   -- riscv_jal : imm1 // imm2 // imm3 // imm4, `cst(imm.int(-1), XLEN) << 1`
   | .JAL =>
     let imm := (((fld w 21 10).cat (fld w 20 1)).cat (fld w 12 8)).cat (fld w 31 1)
